@@ -52,7 +52,7 @@ pub fn expect_file(case: &FileCase, entries: &[(Vec<u8>, Vec<u8>)], sink_bytes: 
     for _ in entries {
         x.push(e("Writer::insert", Res::Unit));
     }
-    if case.spec.knobs.ctor != 2 && case.spec.knobs.fin == 1 {
+    if case.spec.knobs.ctor != 2 && case.spec.knobs.ctor != 3 && case.spec.knobs.fin == 1 {
         x.push(e("Writer::finish", Res::Unit));
     } else {
         x.push(e("Writer::into_inner", Res::Unit));
